@@ -480,6 +480,25 @@ def cys_contact(rng, partner=("LYS", "NZ")):
     return None
 
 
+# benzamidine, ideal planar geometry: an amidinium ligand group (a C.2 carbon with two terminal N.pl3 nitrogens -> C2N)
+BEN_ATOMS = [("C1", 1.390, 0.000), ("C2", 0.695, 1.204), ("C3", -0.695, 1.204), ("C4", -1.390, 0.000), ("C5", -0.695, -1.204), ("C6", 0.695, -1.204),
+             ("C7", 2.870, 0.000), ("N1", 3.535, 1.152), ("N2", 3.535, -1.152)]
+
+
+def add_benzamidine(lines, chain="L", resnum=500, gap=7.0):
+    """`lines` followed by a benzamidine (HETATM, residue BEN) placed `gap` A beyond the largest x of the structure"""
+    atoms = [l for l in lines if is_atom(l)]
+    cs = [coords(l) for l in atoms] or [(0.0, 0.0, 0.0)]
+    sx = max(c[0] for c in cs) + gap + 1.5
+    sy = sum(c[1] for c in cs) / len(cs)
+    sz = sum(c[2] for c in cs) / len(cs)
+    out = list(lines)
+    for k, (name, x, y) in enumerate(BEN_ATOMS):
+        out.append("HETATM%5d %-4s %3s %s%4d    %8.3f%8.3f%8.3f  1.00 20.00          %2s  \n" % (
+            9100 + k, " " + name, "BEN", chain, resnum, x + sx, y + sy, sz, name[0]))
+    return out
+
+
 def align_peptide_plane(rng, lines):
     """the structure turned rigidly (a general rotation, coordinates re-rounded to the 0.001 A grid once) so that a backbone nitrogen,
     the carbonyl carbon bonded to it and its own CA share one coordinate *exactly* - a peptide plane parallel to a coordinate plane,
